@@ -218,6 +218,8 @@ def _ndarray_to_proto(value: np.ndarray, out: v2.program_pb2.Arg):
             ndarrays.to_complex64_array(value, out=ndarray_msg.complex64_array)
         case np.bool_:
             ndarrays.to_bitarray(value, out=ndarray_msg.bit_array)
+        case _:
+            raise ValueError(f'Unsupported ndarray dtype for serialization: {value.dtype!r}')
 
 
 def _ndarray_from_proto(msg: v2.program_pb2.ArgValue):
